@@ -52,6 +52,7 @@ def to_events(case):
     k_of_out = {}
     resp = set()
     known = set()
+    fresh = set()      # circuits committed as Adds whose packet has not visibly reached anything yet
 
     def emit(t, i):
         evs.append((t, i))
@@ -91,6 +92,7 @@ def to_events(case):
                 probs.append("non-forward notifier event at the forwarder at %d" % i)
                 continue
             k = (ic, ii)
+            fresh.discard(k)
             if kind == "fwd":
                 k_of_out[(oc, oi)] = k
                 emit("ECirc %s (AOutAdd %s)" % (ck(*k), ck(oc, oi)), i)
@@ -110,12 +112,20 @@ def to_events(case):
             op = e[1]
             if op == "commit":
                 for k in e[2]:
+                    fresh.add(tuple(k))
                     emit("ECirc %s (AFwd FAdd)" % ck(*k), i)
                 for k in e[3]:
                     emit("ECirc %s (AFwd FDrop)" % ck(*k), i)
                 for k in e[4]:
                     emit("ECirc %s (AFwd FFail)" % ck(*k), i)
                     resp.add(tuple(k))
+            elif op == "delete" and not e[3]:
+                # outside a signature a circuit is deleted only when ForwardPackets abandons a packet
+                # it has just committed (C08-F2 repair): the model checks that the packet was still live
+                for k in e[2]:
+                    if tuple(k) in fresh and tuple(k) not in resp:
+                        fresh.discard(tuple(k))
+                        emit("ECirc %s AAbandon" % ck(*k), i)
             elif op == "open" and not e[3]:
                 for q in e[2]:
                     emit("ECirc %s (AOpen %s)" % (ck(q[0], q[1]), ck(q[2], q[3])), i)
@@ -125,6 +135,7 @@ def to_events(case):
                 emit("ECirc %s (AClose %s)" % (ck(*k), ck(*e[2])), i)
             elif op == "fail" and e[3] == "":
                 k = tuple(e[2])
+                fresh.discard(k)
                 resp.add(k)
                 emit("ECirc %s AOutAddFail" % ck(*k), i)
         elif t == "p":
@@ -310,13 +321,11 @@ def predicate(case):
                 fails.append(("C08_settle_needs_preimage", "settle event with a wrong preimage"))
 
     # --- forwarding-package bookkeeping: the same incoming add always carries the same source ref
-    for o in replay_index_defect(case):
-        if "incoming_htlc" in o:
-            fails.append(("C08_quiescent_balance",
-                          "incoming htlc %s re-forwarded after a restart with forwarding-package index %s "
-                          "(was %s): its response will ack the wrong add" %
-                          (o["incoming_htlc"], o["source_ref_replay"], o["source_ref_first"])))
-            break
+    for o in source_ref_changes(case)[:1]:
+        fails.append(("C08_quiescent_balance",
+                      "incoming htlc %s re-forwarded after a restart with forwarding-package index %s "
+                      "(was %s): its response will ack the wrong add" %
+                      (o["incoming_htlc"], o["source_ref_replay"], o["source_ref_first"])))
 
     # --- quiescent end state
     if case["quiescent"]:
@@ -364,25 +373,12 @@ def predicate(case):
     return fails
 
 
-def replay_index_defect(case):
-    """Known defect C08-F1 (link.go processRemoteAdds): when a forwarding package is replayed after
-    a link restart and some of its adds are already acked, the remaining adds are processed with
-    their position in the FILTERED list as forwarding-package index (SourceRef / FwdFilter bit).
-    Returns the list of observations: shifted replays (any node) and changed source refs (forwarder)."""
-    obs = []
-    first = {}
-    for i, e in enumerate(case["events"]):
-        if e[0] == "d":
-            k = (e[1], e[2], e[3])
-            if k not in first:
-                first[k] = e[4]
-            else:
-                l0 = first[k]
-                sh = [h[:8] for j, h in enumerate(e[4]) if h in l0 and l0.index(h) != j]
-                if sh:
-                    obs.append({"at": i, "node": e[1], "chan": e[2], "fwdpkg": e[3],
-                                "package": [h[:8] for h in l0], "replayed": [h[:8] for h in e[4]]})
-    src = {}
+def source_ref_changes(case):
+    """Regression check for C08-F1 (fixed in /repo by f141912): link.go processRemoteAdds replayed a
+    partially acked forwarding package with the position in the FILTERED list as package index.  At
+    the forwarder the same incoming add must reach ForwardPackets with the same (height, index)
+    source reference on every replay."""
+    obs, src = [], {}
     for i, e in enumerate(case["events"]):
         if e[0] == "p" and e[2] == "add" and len(e) > 9:
             k, v = (e[3], e[4]), (e[8], e[9])
@@ -425,6 +421,20 @@ def packet_lost_at_link_stop(case):
     return out
 
 
+def partial_replays(case):
+    """coverage: replays of a forwarding package in which an already acked add precedes an unacked one
+    (the situation in which C08-F1 struck)"""
+    n, first = 0, {}
+    for e in case["events"]:
+        if e[0] == "d":
+            k = (e[1], e[2], e[3])
+            if k not in first:
+                first[k] = e[4]
+            elif any(h in first[k] and first[k].index(h) != j for j, h in enumerate(e[4])):
+                n += 1
+    return n
+
+
 def funds_missing(case):
     """Non-quiescent end state in which value has demonstrably vanished."""
     end = {e["name"]: e for e in case["end"]}
@@ -445,21 +455,6 @@ def slim(case, around=None):
 
 
 def run(ctx):
-    # VERIF_C08_F1=known treats the replay-index defect as already registered in known_findings.json
-    # (for campaigns run before the lead registers it): its reports become notes.
-    assumed = [(n, pat) for n, pat in (("C08-F1", "fwdpkg-replay-index"),
-                                       ("C08-F2", "fwd-packet-lost-at-link-stop"))
-               if os.environ.get("VERIF_" + n.replace("-", "_")) == "known"]
-    if assumed:
-        real_violation = ctx.violation
-
-        def violation(kind, name, detail, signature=None, failing_input=True):
-            for n, pat in assumed:
-                if signature and pat in signature:
-                    ctx.note("%s (assumed known): %s" % (n, signature))
-                    return
-            real_violation(kind, name, detail, signature=signature, failing_input=failing_input)
-        ctx.violation = violation
     pr = ctx.proof_stage(MODULE, THEOREMS, TARGETS, extra_trusted=[
         "payment hash function H is a Section variable: theorems hold for any H; execution "
         "instantiates SHA-256 (Common/Sha256.v)",
@@ -475,53 +470,54 @@ def run(ctx):
     # -race is off by default: the lnd test fixture shares one mockObfuscator between all links
     # (mock.go EncryptFirstHop writes o.failure), which the detector flags on any two concurrent fails.
     race = bool(os.environ.get("VERIF_C08_RACE"))
-    rc, trace, out = run_harness(ctx.uid(), "htlcswitch", HARNESS, "^TestVerifThreeHop$",
+    # per-process names: concurrent `./check C08` runs must not share the trace / overlay / case files
+    puid = ctx.uid("_p%d" % os.getpid())
+    rc, trace, out = run_harness(puid, "htlcswitch", HARNESS, "^TestVerifThreeHop$",
                                  env=env, timeout=2400, race=race)
     rows = read_jsonl(trace)
+    import shutil
+    shutil.rmtree(os.path.join(os.path.dirname(trace), "overlay", puid), ignore_errors=True)
+    if rc == 0 and rows:
+        try:
+            os.remove(trace)
+        except OSError:
+            pass
     if rc != 0 or not rows:
         ctx.violation("harness_failed", "TestVerifThreeHop", {"log": out[-6000:]},
                       signature="harness", failing_input=False)
         return
     nfail = 0
-    defect = {}        # case number -> observations of the replay-index defect (C08-F1)
-    for c in rows:
-        d = replay_index_defect(c)
-        if d:
-            defect[c["case"]] = d
     for c in rows:
         stuck = (not c["quiescent"]) or any(p["result"] == "timeout" for p in c["pays"])
         f = predicate(c)
-        # every anomaly of a batch in which the replay-index defect was triggered is attributed to it
-        tag = "threehop fwdpkg-replay-index: " if c["case"] in defect else "threehop "
         linkfail = [e[1] for e in c["events"] if e[0] == "f"]
         if f:
             nfail += 1
             if nfail <= 3:
                 ctx.violation("impl_violates_predicate", f[0][0],
-                              {"case": slim(c), "fails": f[:10], "link_failures": linkfail,
-                               "replay_index_defect": defect.get(c["case"], [])[:6]},
-                              signature=tag + f[0][1][:60])
+                              {"case": slim(c), "fails": f[:10], "link_failures": linkfail},
+                              signature="threehop %s" % f[0][1][:60])
         elif stuck:
+            lost = packet_lost_at_link_stop(c)
             if funds_missing(c):
                 ctx.violation("impl_violates_predicate", "C08_quiescent_balance",
                               {"case": slim(c), "fails": ["value vanished; network not quiescent: " + c["why"]]},
-                              signature=tag + "funds missing")
-            elif c["case"] in defect and linkfail:
+                              signature="threehop funds missing")
+            elif linkfail:
                 ctx.violation("impl_violates_predicate", "C08_quiescent_balance",
-                              {"case": slim(c), "fails": ["htlcs left dangling: a restarted link failed while "
-                                                          "replaying its forwarding packages: %s" % linkfail[:3]],
-                               "replay_index_defect": defect[c["case"]][:6]},
-                              signature=tag + "link dead after replay")
-            elif packet_lost_at_link_stop(c):
+                              {"case": slim(c), "fails": ["htlcs left dangling (%s): a link that was not being "
+                                                          "stopped failed: %s" % (c["why"], linkfail[:3])]},
+                              signature="threehop link failed: %s" % linkfail[0][:80])
+            elif lost:
                 ctx.violation("impl_violates_predicate", "C08_quiescent_balance",
-                              {"case": slim(c), "fails": [
+                              {"case": slim(c), "circuits": lost, "fails": [
                                   "htlcs left dangling: the add packets of circuits %s were abandoned when their "
                                   "incoming link stopped (committed half-open, never routed), the replay after the "
-                                  "link restart was dropped as a duplicate" % packet_lost_at_link_stop(c)]},
-                              signature=tag + "fwd-packet-lost-at-link-stop")
+                                  "link restart was dropped as a duplicate" % lost]},
+                              signature="threehop fwd-packet-lost-at-link-stop")
             else:
                 ctx.violation("harness_failed", "TestVerifThreeHop: no quiescence (%s)" % c["why"],
-                              {"case": slim(c), "link_failures": linkfail}, signature=tag + "harness",
+                              {"case": slim(c), "link_failures": linkfail}, signature="threehop harness",
                               failing_input=False)
     # correspondence: the model must accept the trace and agree on the end state
     terms, evmaps, probs_all = [], [], []
@@ -535,7 +531,13 @@ def run(ctx):
         ctx.violation("correspondence_mismatch", "Forward trace translation",
                       {"case": cn, "problems": probs[:10]}, signature="threehop untranslatable",
                       failing_input=True)
-    ok, bad, logs = coq_mismatches(ctx.uid(), IMPORTS, terms, shard=max(1, len(terms) // NCPU + 1))
+    ok, bad, logs = coq_mismatches(puid, IMPORTS, terms, shard=max(1, len(terms) // NCPU + 1))
+    import glob
+    for fpath in glob.glob(os.path.join(os.path.dirname(trace), "coq_eval", "cases_%s_*" % puid)):
+        try:
+            os.remove(fpath)
+        except OSError:
+            pass
     if not ok:
         ctx.violation("correspondence_mismatch", "Forward.Exec (model evaluation failed)",
                       {"logs": logs}, signature="model-eval", failing_input=False)
@@ -553,10 +555,8 @@ def run(ctx):
                                            "NumPending", "NumOpen"][min(first - len(evs), 4)]}
             around = None
         ctx.violation("correspondence_mismatch", "Forward.Exec.check_case",
-                      {"case": slim(c, around), "what": what,
-                       "replay_index_defect": defect.get(c["case"], [])[:6]},
-                      signature=("threehop fwdpkg-replay-index: " if c["case"] in defect else "threehop ")
-                      + "recogniser", failing_input=True)
+                      {"case": slim(c, around), "what": what},
+                      signature="threehop recogniser", failing_input=True)
     if not pr["ok"] and not ctx.violations:
         ctx.violation("proof_broken", ", ".join(pr["broken"]) or "Forward build",
                       {"log": pr["log"][-4000:]}, signature="proof", failing_input=False)
@@ -591,7 +591,7 @@ def run(ctx):
         "model_events_total": sum(len(e) for e in evmaps),
         "faults": {c["fault"]: sum(1 for x in rows if x["fault"] == c["fault"]) for c in rows},
         "quiescent_cases": sum(1 for c in rows if c["quiescent"]),
-        "cases_with_replay_index_defect_C08_F1": len(defect),
+        "partially_acked_package_replays": sum(partial_replays(c) for c in rows),
         "messages_lost_or_stale": sum(c.get("dropped", 0) for c in rows),
         "faults_injected": sum(1 for c in rows for f in (c.get("faults") or []) if f["fired"] != "none"),
         "fault_triggers": {k: sum(1 for c in rows for f in (c.get("faults") or []) if f["fired"] == k)
@@ -605,7 +605,6 @@ def run(ctx):
         "sampled by the harness",
         "restarts (whole node: ERestart, single link: ELinkRestart) are graceful stops; a crash between two "
         "database transactions of one handler is neither modelled nor injected",
-        "batches in which the replay-index defect C08-F1 was triggered are attributed to it as a whole",
         "signature + circuit deletion + mailbox ack are one atomic model step (lnd: CommitDiff is atomic, "
         "DeleteCircuits follows in the same goroutine)"]
     if ctx.thorough and pr["ok"]:
